@@ -347,6 +347,9 @@ class Ctx:
         for e in gen["errors"]:
             self.broken.append("translator anchor: %s" % e["anchor"])
         self.log("translator: changed=%s errors=%d" % (gen["changed"], len(gen["errors"])))
+        # 1b. optional generation step of a property that needs built objects (C18: nm -> gen/GenGlobals.v)
+        if hasattr(mod, "pregen"):
+            mod.pregen(self)
         # 2. proofs
         targets = ["Props/%s.vo" % pid] + list(getattr(mod, "EXTRA_COQ_TARGETS", []))
         ok, out = coq_make(targets)
